@@ -85,7 +85,7 @@ func rectBetweenLayers(l1, l2 *graph.Layer) geom.Rect {
 	h1, h2 := l1.Head(), l2.Head()
 	t1, t2 := l1.Tail(), l2.Tail()
 	return geom.Rect{
-		TL: geom.P{min(h1.X, h2.X), h1.Y + h1.H},
+		TL: geom.P{min(h1.X, h2.X), h1.Y + l1.H},
 		BR: geom.P{max(t1.X+t1.W, t2.X+t2.W), t2.Y},
 	}
 }
